@@ -2,42 +2,66 @@
 (***************************************************************************)
 (* The meaning of one abstract line (DESIGN 4.4).  A line is a record with  *)
 (* a field "form" naming the phrase form and the form's semantic            *)
-(* arguments; spelling choices never occur here.  The result is an          *)
-(* abstract value                                                           *)
-(*    [k |-> "num", q |-> <<n,d,e>>]       plain number                      *)
-(*    [k |-> "empty"]                      nothing to evaluate               *)
-(*    [k |-> "any"]                        the specification does not say    *)
-(*                                         (outside the stated domain)       *)
-(* (further kinds are added by the modules of the other properties).        *)
-(* The semantics is deliberately partial: outside the domain the            *)
-(* properties quantify over, the meaning is "any" and only C01 applies.     *)
+(* arguments; spelling choices (spacing, letter case, separators, synonyms, *)
+(* comments, language) never occur here, so invariance under them is true   *)
+(* of the specification by construction and is a pure conformance           *)
+(* obligation on the code.                                                  *)
+(*                                                                         *)
+(* LineMeaning(ctx, line) = [slot |-> value, env |-> bindings afterwards]   *)
+(* with ctx = [calc, lang, today, env].  The semantics is deliberately      *)
+(* partial: outside the domain the properties quantify over the slot is     *)
+(* Unspec and only C01 (some slot, no panic) applies.                       *)
 (***************************************************************************)
-EXTENDS Arith
-
-Unspec   == [k |-> "any"]
-Empty == [k |-> "empty"]
-Num(q) == [k |-> "num", q |-> q]
+EXTENDS Env
 
 ArithMeaning(toks) ==
   IF DateLike(toks) THEN Unspec
   ELSE LET r == ArithLine(toks) IN IF r.ok THEN Num(r.v) ELSE Unspec
 
-\* ctx = [calc |-> calculator configuration, lang |-> language, today |-> day number, env |-> bindings]
+\* a line that is expected to fail; whether it does is observed, the specification only says what
+\* follows from it: an error slot leaves the bindings unchanged (C03)
+Fails == [k |-> "fails"]
+
+RECURSIVE LineMeaning(_, _)
 LineMeaning(ctx, line) ==
   CASE line.form = "arith"   -> [slot |-> ArithMeaning(line.toks), env |-> ctx.env]
     [] line.form = "blank"   -> [slot |-> Empty, env |-> ctx.env]
+    [] line.form = "comment" -> [slot |-> Empty, env |-> ctx.env]
+    [] line.form = "lit"     -> [slot |-> line.v, env |-> ctx.env]
+    [] line.form = "use"     -> [slot |-> UseMeaning(ctx.env, line.toks), env |-> ctx.env]
+    [] line.form = "fail"    -> [slot |-> Fails, env |-> ctx.env]
+    [] line.form = "assign"  ->
+         LET m == LineMeaning(ctx, line.rhs) IN
+         [slot |-> m.slot,
+          env  |-> IF IsValue(m.slot) THEN Bind(ctx.env, line.name, m.slot)
+                   ELSE IF m.slot.k = "unspec" THEN Bind(ctx.env, line.name, Unspec)
+                   ELSE ctx.env]
+    [] line.form = "shape"   -> [slot |-> Unspec, env |-> ctx.env]
     [] OTHER                 -> [slot |-> Unspec, env |-> ctx.env]
 
 (***************************************************************************)
-(* Does an observed slot (projection of what the code returned) agree with  *)
-(* the meaning?  Observed records: [k |-> "num", q |-> ...] or              *)
-(* [k |-> "num", irr |-> TRUE] when the value is not a small rational,      *)
-(* [k |-> "err"], [k |-> "empty"], ...                                      *)
+(* The calculator's default configuration and the macro-step of the         *)
+(* evaluation loop (one slot per line, in order; an erroneous line does not *)
+(* stop it).  Both are state-free so that generator configurations can use  *)
+(* them without the system's variables.                                     *)
 (***************************************************************************)
-Has(r, f) == f \in DOMAIN r
-Matches(exp, obs) ==
-  CASE exp.k = "any"   -> TRUE
-    [] exp.k = "empty" -> obs.k = "empty"
-    [] exp.k = "num"   -> obs.k = "num" /\ Has(obs, "q") /\ obs.q = exp.q
-    [] OTHER           -> FALSE
+DefaultCalc ==
+  [dec |-> ",", tho |-> ".",
+   num |-> [d |-> 2, remove |-> TRUE, round |-> TRUE],
+   pct |-> [d |-> 2, remove |-> TRUE, round |-> TRUE],
+   mon |-> [remove |-> FALSE, round |-> TRUE],
+   tz  |-> [name |-> "UTC", off |-> 0],
+   rates |-> <<>>,        \* rate overrides set through update_currency: sequence of [cur, q]
+   rules |-> <<>>,        \* registered custom rules in registration order (C18)
+   fams  |-> <<>>]        \* user-defined unit families (C18)
+
+\* macro-step of the evaluation loop: one slot per line, in order; an erroneous line does not stop it
+RECURSIVE RunLines(_, _, _)
+RunLines(ctx, lines, acc) ==
+  IF lines = <<>> THEN [slots |-> acc, env |-> ctx.env]
+  ELSE LET m == LineMeaning(ctx, Head(lines))
+       IN  RunLines([ctx EXCEPT !.env = m.env], Tail(lines), Append(acc, m.slot))
+
+\* agreement of an observed slot with a specified one, including the "expected to fail" marker
+SlotMatches(exp, obs) == IF exp.k = "fails" THEN obs.k \in SlotKinds ELSE Matches(exp, obs)
 =============================================================================
